@@ -75,6 +75,11 @@ def judge(ctx, replay, calls, flat, cb, data, m, model_out, scan_out):
 
 def run(ctx, budget):
     lines, pending = [], []
+    for r in fv.corpus('C04'):          # regression corpus first
+        if 'stream' in r and 'chunks' in r:
+            check_one(ctx, bytes.fromhex(r['stream']), r.get('tokens', 'corpus'), r.get('max_payload', 1 << 24),
+                      [bytes.fromhex(c) for c in r['chunks']], lines, pending)
+            ctx.count('corpus_cases')
     allcases = cases(ctx, budget)
     for data, kinds in allcases:
         for t in kinds if kinds.isalpha() and kinds.isupper() else ['x']:
